@@ -21,7 +21,7 @@ ASSUMPTIONS = ["only the x86-64 target is built (32-bit and atomic cfgs are not 
                "serde-bridge configurations are exercised by C17/C18 in the std+half configuration only"]
 TYPED = ["opt(u8)", "tup(u8,i16,bool)", "arr(3,u16)", "fields(u32,u32)", "duration", "str", "bound(u8)", "opt(fields(u32,u32))",
          "tagged(0,str)", "tagged(32,u8)", "tup(u8,tagged(1000,i16))", "opt(tagged(4294967296,bool))", "nz(u8)", "nz(i64)", "int", "tag", "bool", "char",
-         "unit", "u64", "i8", "barr(4)", "bytes", "arr(2,opt(tup(u8,bool)))", "enum(u8,str)"]
+         "unit", "u64", "i8", "barr(4)", "bytes", "arr(2,opt(tup(u8,bool)))", "enum(u8,str)", "cstr"]
 
 
 def cfg_bin(name):
@@ -93,6 +93,7 @@ def typed_inputs(rng, n):
         "fields(u32,u32)": [b"\x82\x01\x02", b"\x83\x01\x02\x03", b"\x9f\x01\x02\xff", b"\x81\x01", b"\x84\x01\x02\x82\x01\x02\x03", b"\x9f\x01\x02\x03\x04\xff"],
         "duration": [b"\x82\x05\x06", b"\x82\x1b" + b"\xff" * 8 + b"\x1a\x3b\x9a\xca\x00", b"\x82\x05\x1a\x3b\x9a\xc9\xff", b"\x9f\x05\x06\xff"],
         "str": [b"\x61a", b"\x62\xc3\xa9", b"\x61\xff", b"\x7f\x61a\xff", b"\x78\x01a"],
+        "cstr": [b"\x43ab\x00", b"\x42ab", b"\x43a\x00b", b"\x41\x00", b"\x40", b"\x44a\x00\x00\x00", b"\x63ab\x00", b"\x5f\x43ab\x00\xff", b"\x58\x03ab\x00"],
         "bound(u8)": [b"\x82\x00\x05", b"\x82\x01\x05", b"\x82\x02\x80", b"\x82\x02\x82\x01\x02", b"\x82\x03\x05", b"\x82\x02\x9f\x01\xff"],
         "opt(fields(u32,u32))": [b"\xf6", b"\x82\x01\x02", b"\x83\x01\x02\x9f\xff"],
         # every other Decode impl that exists without alloc, incl. the wrong-tag / wrong-length / out-of-range error paths
@@ -160,6 +161,17 @@ def corpus(rng, tier):
         ops.append(f"enc simple {x}"); ops.append(f"enc u8 {x}"); ops.append(f"enc i8 {x - 128}")
     for b in (0, 0x3f800000, 0x7fc00000, 0x33800000, 0x477fe000, 0xff800000, 1):
         ops.append(f"enc f32 {b:08x}"); ops.append(f"enc f16 {b:08x}")
+    # explicit half-precision encoding just below / at / just above a rounding tie (13 bits are dropped: a tie is 0x1000 in them), sticky bits in
+    # the lowest positions only, in the normal, subnormal and overflow ranges, both signs, and NaNs whose payload lies in the dropped bits
+    for e_ in (0x38800000, 0x3f800000, 0x3c000000, 0x477fe000, 0x47000000, 0x33800000, 0x36a00000, 0x38000000, 0x387fc000):
+        for m in (0, 1, 0x3ff):
+            for low in (0x0fff, 0x1000, 0x1001, 0x1002, 0x1004, 0x1007, 0x1800, 0x0001, 0x1fff):
+                for sg in (0, 0x80000000):
+                    ops.append(f"enc f16 {(sg | (e_ + (m << 13)) | low) & 0xffffffff:08x}")
+    for b in (0x7f800001, 0x7f801fff, 0xff800001, 0x7f802000, 0x7fa00000, 0x7fffffff):
+        ops.append(f"enc f16 {b:08x}")
+    for _ in range(300 if q else 20000):
+        ops.append(f"enc f16 {rng.getrandbits(32):08x}")
     for n in (0, 1, 23, 24, 60):
         ops.append(f"enc bytes {gen.hexb(gen.rand_bytes(rng, n))}")
         ops.append(f"enc str {gen.hexb(bytes(rng.randint(0x20, 0x7e) for _ in range(n)))}")
